@@ -311,17 +311,27 @@ func (e *Engine) decDigitsBV(v *Term) []*Term {
 		}
 		p *= 10
 	}
+	// The digits are fresh solver variables d_i in 0..9 defined by v == sum d_i * 10^i (multiplications by
+	// constants instead of divisions: the same function, far cheaper for the bit-blaster). The digit count k is
+	// already fixed by the fork above, so the digits are unique.
 	out := make([]*Term, k)
+	sum := b.BVu(0, w)
 	d := uint64(1)
 	for i := k - 1; i >= 0; i-- {
-		q := v
-		if d != 1 {
-			q = b.Bin(OBvUDiv, v, b.BVu(d, w))
+		h := e.x.newHidden(Sort{SBV, 8})
+		e.x.assume(b.Bin(OBvULE, h, b.BVu(9, 8)))
+		if i == 0 && k == 20 {
+			e.x.assume(b.Bin(OBvULE, h, b.BVu(1, 8)))
 		}
-		digit := b.Bin(OBvURem, q, b.BVu(10, w))
-		out[i] = b.Bin(OBvAdd, b.Extract(digit, 7, 0), b.BVu('0', 8))
+		term := b.ZExt(h, w)
+		if d != 1 {
+			term = b.Bin(OBvMul, term, b.BVu(d, w))
+		}
+		sum = b.Bin(OBvAdd, sum, term)
+		out[i] = b.Bin(OBvAdd, h, b.BVu('0', 8))
 		d *= 10
 	}
+	e.x.assume(b.Eq(v, sum))
 	return out
 }
 
